@@ -433,14 +433,18 @@ fn typed_handlers(rep: &mut Report) {
 fn load(rep: &mut Report) {
     let idt = Box::new(InterruptDescriptorTable::new());
     let base = &*idt as *const _ as u64;
-    let (_, evs) = trapemu::trapped(|| unsafe { idt.load_unsafe() });
-    rep.eval();
-    if evs.len() != 1 || evs[0].kind != K::Lidt {
-        rep.violation("load_unsafe|not-exactly-one-lidt", J::A(evs.iter().map(|e| J::s(trapemu::fmt_event(e))).collect()));
-    } else if evs[0].n != 4095 || evs[0].val != base {
-        rep.violation("load_unsafe|wrong-limit-or-base", J::obj(vec![("limit", J::U(evs[0].n as u64)), ("base", J::hex(evs[0].val)), ("table", J::hex(base))]));
+    // `load` wants a `&'static`; the box outlives both calls
+    let st: &'static InterruptDescriptorTable = unsafe { &*(&*idt as *const InterruptDescriptorTable) };
+    for which in ["load_unsafe", "load"] {
+        let (_, evs) = trapemu::trapped(|| if which == "load" { st.load() } else { unsafe { idt.load_unsafe() } });
+        rep.eval();
+        if evs.len() != 1 || evs[0].kind != K::Lidt {
+            rep.violation(&format!("{}|not-exactly-one-lidt", which), J::A(evs.iter().map(|e| J::s(trapemu::fmt_event(e))).collect()));
+        } else if evs[0].n != 4095 || evs[0].val != base {
+            rep.violation(&format!("{}|wrong-limit-or-base", which), J::obj(vec![("limit", J::U(evs[0].n as u64)), ("base", J::hex(evs[0].val)), ("table", J::hex(base))]));
+        }
+        rep.class(which);
     }
-    rep.class("load");
 }
 
 pub fn run(a: &Args, rep: &mut Report) {
